@@ -98,6 +98,46 @@ def xorClassicalBias (m n : Nat) (D : Nat → Nat → Rat) : Rat :=
 /-- `Σ_{x,y} prob x y` -/
 def totalProb (m n : Nat) (prob : Nat → Nat → Rat) : Rat := sumN m fun x => sumN n fun y => prob x y
 
+/-! ## `XORGame.__init__`: default tolerance and the three guards -/
+
+/-- `np.finfo(float).eps = 2⁻⁵²` -/
+def floatEps : Rat := 1 / 4503599627370496
+
+/-- `self.tol`: `np.finfo(float).eps * q_0**2 * q_1**2` when `tol is None`, else the given value -/
+def xorTol (q0 q1 : Nat) : Option Rat → Rat
+  | none => floatEps * ((q0 : Rat) * q0) * ((q1 : Rat) * q1)
+  | some t => t
+
+/-- `-np.min(np.min(prob_mat))` = the largest entry of `-prob_mat` (entries in C order; both sizes positive) -/
+def negMin (q0 q1 : Nat) (prob : Nat → Nat → Rat) : Rat :=
+  maxUpTo (q0 * q1 - 1) fun k => -prob (k / q1) (k % q1)
+
+/-- outcome of the constructor -/
+inductive XorInit where
+  /-- accepted; carries `self.tol` -/
+  | ok (tol : Rat)
+  /-- "`prob_mat` and `pred_mat` must be matrices of the same size" -/
+  | sizeMismatch
+  /-- "its entries must be non-negative" -/
+  | negative
+  /-- "its entries must sum to 1" -/
+  | notNormalised
+deriving DecidableEq, Repr
+
+/-- the guards of `XORGame.__init__` in the order of the code: `prob_mat` is `q0 × q1`, `pred_mat` is `p0 × p1`
+```
+if (q_0, q_1) != self.pred_mat.shape: raise …
+if -np.min(np.min(self.prob_mat)) > self.tol: raise …
+if np.abs(np.sum(np.sum(self.prob_mat)) - 1) > self.tol: raise …
+``` -/
+def xorInit (q0 q1 p0 p1 : Nat) (prob : Nat → Nat → Rat) (tol : Option Rat) : XorInit :=
+  let t := xorTol q0 q1 tol
+  if (q0, q1) ≠ (p0, p1) then .sizeMismatch
+  else if negMin q0 q1 prob > t then .negative
+  else
+    let d := totalProb q0 q1 prob - 1
+    if (if d < 0 then -d else d) > t then .notNormalised else .ok t
+
 /-! ## Certificate checkers for the Tsirelson semidefinite program -/
 
 variable {N k : Nat}
